@@ -30,6 +30,18 @@ fn main() {
     let args = vcommon::Args::parse();
     let code: Option<i32> = match args.id.as_str() {
         "smoke" => Some(world::smoke()),
+        "simdbg" => {
+            let mut sim = sim::Sim::new(args.seed, 0);
+            for _ in 0..args.scale(300, 900) {
+                let rec = sim.step();
+                if let Some(h) = sim.history.last() {
+                    if matches!(rec.op, sim::Op::CreateOrder { .. } | sim::Op::Execute { .. } | sim::Op::Liquidate { .. }) {
+                        eprintln!("{h}");
+                    }
+                }
+            }
+            Some(0)
+        }
         "C17" => c17::run(&args),
         "C18" => c18::run(&args),
         "C19" => c19::run(&args),
